@@ -268,6 +268,16 @@ def wiring_rule(ctx, p):
     ctx.ob("C13.wiring", f"{init.key}:grid", grid_src == "self.real_space_mask.derive_grid.unmasked.in_radians", where=init, node=init.node,
            construct=f"self.grid = {grid_src}", message="the transformer grid must be the real-space mask's unmasked pixel-centre grid converted to radians")
 
+    # the baselines the tables were computed from are a private copy: the tables cannot drift from the stored baselines if the caller edits its array afterwards
+    from . import C11
+    from ..effect import F, effective_fields
+    E = C11.get_effects(p)
+    tags = effective_fields(E, init.cls).get("uv_wavelengths", set())
+    alias = sorted(t[1] for t in tags if t[0] == "P")
+    ctx.ob("C13.wiring", f"{init.key}:own baselines", bool(tags) and not alias, where=init, node=init.node, construct=f"self.uv_wavelengths may alias constructor argument(s) {alias}" if alias else "self.uv_wavelengths is a fresh array",
+           message="the transformer must keep its own copy of the baselines (astype / np.array): with an alias, a later in-place edit of the caller's array changes the baselines the direct transform and the adjoint use "
+                   "but not the preloaded tables, and the preloaded and direct variants disagree")
+
     # branch agreement
     for meth, pre, direct, operand_kw in (("visibilities_from", "visibilities_via_preload_jit_from", "visibilities_jit", "image_1d"),
                                           ("transform_mapping_matrix", "transformed_mapping_matrix_via_preload_jit_from", "transformed_mapping_matrix_jit", "mapping_matrix")):
@@ -313,6 +323,8 @@ def wiring_rule(ctx, p):
 
 _M = "autoarray/operators/transformer_util.py"
 CONTROLS = [
+    Control("transformer shares the caller's baseline array (seed C13/4)", "autoarray/operators/transformer.py", in_func("TransformerDFT.__init__", 'self.uv_wavelengths = uv_wavelengths.astype("float")', 'self.uv_wavelengths = np.asarray(uv_wavelengths, dtype="float")'), "C13.wiring"),
+    Control("twin: baselines copied with np.array", "autoarray/operators/transformer.py", in_func("TransformerDFT.__init__", 'self.uv_wavelengths = uv_wavelengths.astype("float")', 'self.uv_wavelengths = np.array(uv_wavelengths, dtype="float")'), None, twin=True),
     Control("phase sign flipped in visibilities_jit", _M, in_func("visibilities_jit", "-2.0", "2.0", count=2, occurrence=0), "C13.phase"),
     Control("u,v columns swapped in preload_real_transforms", _M, in_func("preload_real_transforms", "uv_wavelengths[vis_1d_index, 0]", "uv_wavelengths[vis_1d_index, 1]", count=1), "C13.phase"),
     Control("sparsity guard back to > 0", _M, in_func("transformed_mapping_matrix_jit", "if value != 0:", "if value > 0:"), "C13.lin"),
